@@ -23,6 +23,9 @@ out = ["# Independent seeds (sub-agents given only the property text and a scrat
 for r in rows:
     out.append("| " + " | ".join(str(x) for x in r) + " |")
 n = len(rows); d = sum(1 for r in rows if r[3] == "yes")
-out += ["", f"{d} of {n} valid seeds detected; the others end in ANALYSIS-ERROR (exit 2: no verdict), never in a pass."]
+ae = sum(1 for r in rows if r[3].startswith("no (ANALYSIS"))
+silent = [r[0] for r in rows if r[3] == "no"]
+out += ["", f"{d} of {n} valid seeds detected by the check of their own property; {ae} end in ANALYSIS-ERROR (exit 2: no verdict); "
+        f"{len(silent)} pass it silently ({', '.join(silent)}; DESIGN.md §6.3 says what each of them is and which other check, if any, reports it)."]
 open(os.path.join(here, "notes", "detection_matrix.md"), "w").write("\n".join(out) + "\n")
 print(f"{d}/{n}")
